@@ -104,6 +104,11 @@ add("lang", "file", "_Bool q%d[4] = \"abc\";", "_Bool q%d[] = u8\"ab\";", "short
 add("lang", "block", "{ _Bool lb%d[4] = \"abc\"; }", "{ short ls%d[] = u\"ab\"; }", "{ int lw%d[] = U\"ab\"; }", "{ unsigned lu%d[3] = L\"ab\"; }", "{ static _Bool sb%d[] = \"a\"; }",
     "{ struct { short s[3]; } lm%d = { u\"ab\" }; }")
 
+# the underlying type of an enum is an integer type (C23 6.7.2.2p4)
+add("lang", "file", "enum e%d : float { A%d = 1 };", "enum e%d : double;", "typedef float F%d; enum e%d : F%d { A%d };", "enum e%d : void { A%d };", "enum e%d : struct hs { A%d };"[:0] or "enum e%d : float { A%d, B%d };",
+    "enum e%d : double { A%d = 0 } q%d;")
+add("impl", "file", "enum e%d : unsigned char { A%d, B%d = 255, C%d };", "enum e%d : unsigned { A%d = 0xffffffff, B%d };", "enum e%d : unsigned long { A%d = 0xffffffffffffffff, B%d };")
+
 # ---- unsupported features ------------------------------------------------------------------------------------
 add("unsup", "file", "_Atomic int q%d;", "_Atomic(int) q%d;", "int _Atomic q%d;", "_Complex double q%d;", "double _Complex q%d;", "long double q%d = 1.0L;", "struct __attribute__((aligned(8))) ua%d { char c; };",
     "struct __attribute__((packed)) up%d { int a:3; };", "__attribute__((aligned(8))) int q%d;", "[[gnu::packed]] int q%d;", "__asm__(\"nop\");", "long double q%d(long double a) { return a + 1; }",
